@@ -341,6 +341,9 @@ type verifSBGen struct {
 	Keys    []string
 	Vals    []string
 	History map[int][]*verifSBAcc // address index -> contents the account had at earlier commits
+	// states at the last and at the last-but-one recorded commit: the "undo" operation restores an
+	// account to what it was before the previous block (sub-tries recur with identical hashes)
+	Last, BeforeLast verifSBState
 }
 
 var verifSBEdgeBytes = []byte{0x00, 0x01, 0x0f, 0x10, 0x11, 0xf0, 0xff}
@@ -408,12 +411,20 @@ func (g *verifSBGen) genContent(rt *rapid.T, storageBias bool) *verifSBAcc {
 // storageDirty lists the accounts whose storage was written earlier in the same block: they are not
 // removed in that block, because AccountsDB.RemoveAccount fails for them ("hash not found":
 // removeDataTrie recreates the account's data trie from the database, where the uncommitted root does
-// not exist yet) - a behaviour outside the pruning/snapshot properties, see the C09 report.
+// not exist yet) - a behaviour outside the pruning/snapshot properties, see the C09 report. The same map
+// records, under key -(i+1), the accounts removed earlier in the block: they are not created again in
+// that block, because a journal revert after remove + create leaves a stale data trie in the
+// AccountsDB cache (defect found by the C06 harness, notes/fixes/C06-stale-cached-data-trie-after-revert.patch).
 func (g *verifSBGen) genOp(rt *rapid.T, cur verifSBState, storageDirty map[int]bool) verifSBOp {
 	existing := g.existing(cur)
 	absent := g.absent(cur)
 	for {
-		switch rapid.IntRange(0, 9).Draw(rt, "opKind") {
+		switch rapid.IntRange(0, 12).Draw(rt, "opKind") {
+		case 10, 11, 12:
+			if op, ok := g.genUndo(rt, cur, storageDirty); ok {
+				return op
+			}
+			continue
 		case 0, 1:
 			i := rapid.IntRange(0, len(g.Addrs)-1).Draw(rt, "addr")
 			op := verifSBOp{Kind: "touch", Addr: i, DNonce: uint64(rapid.IntRange(0, 1).Draw(rt, "dn")), DBal: int64(rapid.IntRange(-5, 5).Draw(rt, "db"))}
@@ -458,10 +469,16 @@ func (g *verifSBGen) genOp(rt *rapid.T, cur verifSBState, storageDirty map[int]b
 			}
 			return verifSBOp{Kind: "remove", Addr: rapid.SampledFrom(candidates).Draw(rt, "addr")}
 		default:
-			if len(absent) == 0 {
+			var creatable []int
+			for _, i := range absent {
+				if !storageDirty[-(i + 1)] {
+					creatable = append(creatable, i)
+				}
+			}
+			if len(creatable) == 0 {
 				continue
 			}
-			i := rapid.SampledFrom(absent).Draw(rt, "addr")
+			i := rapid.SampledFrom(creatable).Draw(rt, "addr")
 			// half of the time the account comes back exactly as it was at an earlier commit
 			if h := g.History[i]; len(h) > 0 && rapid.Bool().Draw(rt, "resurrect") {
 				return verifSBOp{Kind: "create", Addr: i, Content: rapid.SampledFrom(h).Draw(rt, "old").clone()}
@@ -469,6 +486,54 @@ func (g *verifSBGen) genOp(rt *rapid.T, cur verifSBState, storageDirty map[int]b
 			return verifSBOp{Kind: "create", Addr: i, Content: g.genContent(rt, true)}
 		}
 	}
+}
+
+// genUndo draws an operation that moves one account back towards its content before the previous block:
+// an account created by the previous block is removed, a removed one is created again with its old
+// content, a changed storage key gets its old value back. Whole sub-tries then have the hashes they had
+// two commits ago (the state root does not: the sender nonce keeps growing).
+func (g *verifSBGen) genUndo(rt *rapid.T, cur verifSBState, storageDirty map[int]bool) (verifSBOp, bool) {
+	if g.BeforeLast == nil {
+		return verifSBOp{}, false
+	}
+	var ops []verifSBOp
+	for i := 1; i < len(g.Addrs); i++ {
+		before, now := g.BeforeLast[string(g.Addrs[i])], cur[string(g.Addrs[i])]
+		switch {
+		case before == nil && now == nil:
+		case before == nil:
+			if !storageDirty[i] {
+				ops = append(ops, verifSBOp{Kind: "remove", Addr: i})
+			}
+		case now == nil:
+			if !storageDirty[-(i + 1)] {
+				ops = append(ops, verifSBOp{Kind: "create", Addr: i, Content: before.clone()})
+			}
+		default:
+			keys := map[string]struct{}{}
+			for k := range before.Storage {
+				keys[k] = struct{}{}
+			}
+			for k := range now.Storage {
+				keys[k] = struct{}{}
+			}
+			sorted := make([]string, 0, len(keys))
+			for k := range keys {
+				sorted = append(sorted, k)
+			}
+			sort.Strings(sorted)
+			for _, k := range sorted {
+				if before.Storage[k] != now.Storage[k] {
+					ops = append(ops, verifSBOp{Kind: "sstore", Addr: i, Key: k, Val: before.Storage[k]})
+					break
+				}
+			}
+		}
+	}
+	if len(ops) == 0 {
+		return verifSBOp{}, false
+	}
+	return ops[rapid.IntRange(0, len(ops)-1).Draw(rt, "undo")], true
 }
 
 // genBlock draws a block of 1..maxTx transactions over cur (cur is not modified). The first
@@ -493,6 +558,9 @@ func (g *verifSBGen) genBlock(rt *rapid.T, cur verifSBState, maxTx int) verifSBB
 			op := g.genOp(rt, txWork, storageDirty)
 			if op.Kind == "sstore" || (op.Kind == "create" && len(op.Content.Storage) > 0) {
 				storageDirty[op.Addr] = true
+			}
+			if op.Kind == "remove" {
+				storageDirty[-(op.Addr + 1)] = true
 			}
 			verifSBApplyModel(g, txWork, op)
 			tx.Ops = append(tx.Ops, op)
@@ -610,6 +678,7 @@ func verifSBExecBlock(g *verifSBGen, adb *state.AccountsDB, cur verifSBState, bl
 
 // remember records the committed contents per address for later resurrection draws.
 func (g *verifSBGen) remember(s verifSBState) {
+	g.BeforeLast, g.Last = g.Last, s.clone()
 	for i, a := range g.Addrs {
 		acc := s[string(a)]
 		if acc == nil {
